@@ -51,7 +51,7 @@ from vlib import core, tlc
 SIM_WORKERS = 8
 SIM_PER_WORKER = {'quick': 12, 'thorough': 500}
 NEED = ['edge', 'indirect-ancestor', 'feedback', 'feedback-unrelated', 'feedback-shared', 'ref-alg', 'ref-sv', 'ref-val',
-        'shared-consumer', 'shared-input', 'shared-package', 'diamond', 'deep-join', 'join-with-descendant']
+        'shared-consumer', 'shared-input', 'shared-package', 'diamond', 'deep-join', 'join-with-descendant', 'same-named-producers']
 
 
 def _tlc(chk, name, module, cfg_kwargs, workers, **kw):
@@ -228,6 +228,7 @@ def run(pid, tier, seed, replay=None):
         'bounded domain: 3 algorithms exhaustively (two profiles of kinds / packages / state vectors x values; every subset of '
         '{ALG_REF, SV_REF, V_REF} between every ordered pair; 5 feedback options; all 27 kind assignments x 5 packagings on 4 shapes), '
         '43 four-algorithm chains / diamonds and 108 five- to seven-algorithm joins of deep distinct branches (3 granularities x 3 kinds at the join x 2-4 namings), '
+        '160 three-algorithm programs whose two producers (or all three algorithms) share short name, state-vector and value names across packages, '
         '4 algorithms with 1-2 state vectors x 1-2 values and up to 2 feedback references by simulation',
         'engines are acyclic by construction (references point backwards in a fixed topological order, feedback forwards) and well formed '
         '(every reference names an existing state vector / value)',
